@@ -1690,6 +1690,9 @@ class Server:
         if workers:
             for worker in workers:
                 worker.cancel()
+            # a worker may take a while to wind up (closing its file): its
+            # replies come before those of the commands behind abor
+            await asyncio.wait(workers)
         else:
             connection.response("226", "nothing to abort")
         return True
